@@ -2,7 +2,8 @@
    (Model/SvdDecomp.v); the SVD oracle `svd` is universally quantified, what is assumed about its
    answers is the explicit per-run contract (step_ok / loop_ok / tt_ok ...). *)
 From Coq Require Import List Arith ZArith Ring Lia Reals.
-From TLV Require Import Base.Shape Base.PyList Base.Tensor Base.Ops Model.SvdDecomp Proofs.SvdDecompProofs.
+From TLV Require Import Base.Shape Base.PyList Base.Tensor Base.Ops Model.SvdDecomp Proofs.SvdDecompProofs
+     Proofs.SvdDecompProofsR Proofs.SvdDecompTucker Proofs.SvdDecompTuckerFull Proofs.SvdDecompTuckerR.
 Import ListNotations.
 
 (* exactness of one TT-SVD step, over every commutative ring: truncating + sign-flipping a
@@ -49,8 +50,115 @@ Proof.
   cbv zeta. split; [exact InitialRing.Zth|]. split; [|vm_compute; reflexivity].
   unfold tt_ok. cbn [validate_tt_rank ndim shape length Nat.add Nat.eqb hd last andb tl].
   unfold loop_ok. cbn [loop_pred]. cbv zeta. split; [|vm_compute; exact I].
-  exists 2. repeat split; try (vm_compute; lia).
-  - intros i c Hi Hc. destruct i as [|[|i]]; destruct c as [|[|c]]; try lia; vm_compute; reflexivity.
-  - intros l H1 H2. assert (l = 1) by (vm_compute in H1; lia). subst. reflexivity.
-  - vm_compute. repeat constructor.
+  exists 2.
+  change (Nat.min (1 * 2) (Nat.min (prod [2] * 1) (hd 1 [1; 1]))) with 1.
+  change (prod [2] * 1) with 2. change (1 * 2) with 2.
+  split; [lia|]. split; [reflexivity|]. split; [reflexivity|]. split.
+  { intros i c Hi Hc.
+    assert (Ei : i = 0 \/ i = 1) by lia. assert (Ec : c = 0 \/ c = 1) by lia.
+    destruct Ei as [-> | ->]; destruct Ec as [-> | ->]; vm_compute; reflexivity. }
+  split.
+  { intros l H1 H2. assert (l = 1) by lia. subst. reflexivity. }
+  split; [simpl; lia|].
+  vm_compute. repeat constructor.
+Qed.
+
+(* over the reals the plain SVD contract (orthonormal columns of U, U diag(S) Vh = M, discarded singular
+   values zero) implies the ring-level contract: the sign multipliers of svd_flip square to one *)
+Theorem C09_svd_contract_step_ok : forall (M : tensor R) (m n r : nat) (a : svdans),
+  svd_contract M m n r a -> step_ok Rops M m n r a.
+Proof. exact svd_contract_step_ok. Qed.
+Print Assumptions C09_svd_contract_step_ok.
+
+(* tensor_train over R, any oracle whose answers in this run meet the plain SVD contract and whose
+   truncations discard only zero singular values: every entry of the input is reproduced *)
+Theorem C09_tensor_train_exact_R : forall (svd : nat -> tensor R -> svdans) (X : tensor R) (rank : rank_spec)
+    (cores : list (tensor R)),
+  tt_contract svd X rank -> tensor_train Rops svd X rank = Ok cores ->
+  forall idx, inb (shape X) idx -> tt_entry Rops cores idx = get 0%R X idx.
+Proof. exact tensor_train_exact_R. Qed.
+Print Assumptions C09_tensor_train_exact_R.
+
+(* Tucker / HOSVD, one mode, every commutative ring, every order: if U has orthonormal columns and the
+   mode-k fibres of X are combinations of them, then (X x_k U^T) x_k U = X *)
+Theorem C09_mode_projector_exact : forall (F : Type) (Op : fops F),
+  ring_theory (f0 Op) (f1 Op) (fadd Op) (fmul Op) (fsub Op) (fopp Op) (@eq F) ->
+  forall (X U : tensor F) (k r : nat) (c : nat -> list nat -> F),
+  wf X -> k < ndim X -> shape U = [nth k (shape X) 0; r] ->
+  orthonormal_cols Op U (nth k (shape X) 0) r -> mode_span Op X U k r c ->
+  exists Y, mode_dot Op X U k true = Ok Y /\ shape Y = set_nth k r (shape X) /\
+            (forall idx l, inb (shape X) idx -> l < r -> g Op Y (set_nth k l idx) = c l (remove_nth k idx)) /\
+            mode_dot Op Y U k false = Ok X.
+Proof. exact @mode_projector_exact. Qed.
+Print Assumptions C09_mode_projector_exact.
+
+(* tensor_ring: the rotated rank request (source after fix e10d22b) lists bond (mode + j) mod n at position j *)
+Theorem C09_tr_rotate_rank_correct : forall n mode rk, length rk = n + 1 -> mode < n ->
+  tr_rotate_rank n mode rk = tr_rotate_rank_spec n mode rk.
+Proof. exact tr_rotate_rank_correct. Qed.
+Print Assumptions C09_tr_rotate_rank_correct.
+
+(* the rule before fix e10d22b (rank[mode:] + rank[:mode]) is NOT that rotation for start mode >= 2 *)
+Theorem C09_tr_old_rotation_refuted :
+  exists n mode rk, length rk = n + 1 /\ mode < n /\ nth 0 rk 0 = nth n rk 0 /\
+    firstn n (tr_rotate_rank_old mode rk) <> firstn n (tr_rotate_rank_spec n mode rk).
+Proof. exact tr_old_rotation_refuted. Qed.
+Print Assumptions C09_tr_old_rotation_refuted.
+
+(* Tucker, all modes at once, every commutative ring, every order: if every factor has orthonormal columns
+   spanning the corresponding mode fibres of X, the core projection followed by the reconstruction
+   (both as computed by multi_mode_dot) returns X; induction over the factor list + commutation of
+   n-mode products along different modes *)
+Theorem C09_tucker_roundtrip : forall (F : Type) (Op : fops F),
+  ring_theory (f0 Op) (f1 Op) (fadd Op) (fmul Op) (fsub Op) (fopp Op) (@eq F) ->
+  forall (fs : list (tensor F)) (k : nat) (X : tensor F),
+  wf X -> k + length fs <= ndim X -> factors_span Op X fs k ->
+  exists core, multi_mode_dot Op X fs k None true = Ok core /\ multi_mode_dot Op core fs k None false = Ok X.
+Proof. exact @tucker_roundtrip. Qed.
+Print Assumptions C09_tucker_roundtrip.
+
+(* the model of tucker(init="svd", tol=0), any number of HOOI sweeps, any oracle: if the returned factors
+   fit X then tucker_to_tensor of the returned (core, factors) is X *)
+Theorem C09_tucker_exact_of_factors : forall (F : Type) (Op : fops F),
+  ring_theory (f0 Op) (f1 Op) (fadd Op) (fmul Op) (fsub Op) (fopp Op) (@eq F) ->
+  forall (svd : nat -> tensor F -> svdans) (X : tensor F) (rank : rank_spec) (n_iter : nat)
+         (core : tensor F) (fs : list (tensor F)),
+  wf X -> tucker Op svd X rank n_iter = Ok (core, fs) -> length fs <= ndim X -> factors_span Op X fs 0 ->
+  tucker_to_tensor Op core fs = Ok X.
+Proof. exact @tucker_exact_of_factors. Qed.
+Print Assumptions C09_tucker_exact_of_factors.
+
+(* HOSVD (tucker with n_iter_max = 0) over R, every order: if every SVD call of initialize_tucker meets the
+   plain SVD contract and discards only zero singular values, the decomposition reconstructs X exactly *)
+Theorem C09_hosvd_exact_R : forall (svd : nat -> tensor R -> svdans) (X : tensor R) (rank : rank_spec)
+    (core : tensor R) (fs : list (tensor R)),
+  wf X -> 0 < prod (shape X) ->
+  hosvd_contract svd X (validate_tucker_rank (ndim X) rank) 0 0 ->
+  tucker Rops svd X rank 0 = Ok (core, fs) ->
+  tucker_to_tensor Rops core fs = Ok X.
+Proof. exact hosvd_exact_R. Qed.
+Print Assumptions C09_hosvd_exact_R.
+
+(* non-vacuity: a rank-(1,1) 2x2 matrix with its leading singular vectors *)
+Example C09_nonvacuous_tucker :
+  let X := mk [2; 2] [3; 0; 0; 0]%Z in
+  let U := mk [2; 1] [1; 0]%Z in
+  wf X /\ factors_span Zops X [U; U] 0 /\
+  multi_mode_dot Zops X [U; U] 0 None true = Ok (mk [1; 1] [3%Z]) /\
+  tucker_to_tensor Zops (mk [1; 1] [3%Z]) [U; U] = Ok X.
+Proof.
+  cbv zeta. split; [reflexivity|]. split; [|split; vm_compute; reflexivity].
+  cbn [factors_span]. split; [|split; [|exact I]].
+  - exists 1, (fun _ ridx => if Nat.eqb (nth 0 ridx 0) 0 then 3%Z else 0%Z). split; [reflexivity|]. split.
+    + intros j l Hj Hl. assert (j = 0) by lia. assert (l = 0) by lia. subst. vm_compute. reflexivity.
+    + intros idx Hidx. destruct idx as [|i [|j [|? ?]]]; simpl in Hidx; try tauto.
+      destruct Hidx as (Hi & Hj & _).
+      assert (Ei : i = 0 \/ i = 1) by lia. assert (Ej : j = 0 \/ j = 1) by lia.
+      destruct Ei as [-> | ->]; destruct Ej as [-> | ->]; vm_compute; reflexivity.
+  - exists 1, (fun _ ridx => if Nat.eqb (nth 0 ridx 0) 0 then 3%Z else 0%Z). split; [reflexivity|]. split.
+    + intros j l Hj Hl. assert (j = 0) by lia. assert (l = 0) by lia. subst. vm_compute. reflexivity.
+    + intros idx Hidx. destruct idx as [|i [|j [|? ?]]]; simpl in Hidx; try tauto.
+      destruct Hidx as (Hi & Hj & _).
+      assert (Ei : i = 0 \/ i = 1) by lia. assert (Ej : j = 0 \/ j = 1) by lia.
+      destruct Ei as [-> | ->]; destruct Ej as [-> | ->]; vm_compute; reflexivity.
 Qed.
